@@ -185,6 +185,13 @@ impl<'a, R: BufRead> LogCat2DltMsgIterator<'a, R> {
     }
 }
 
+/// return the str without its first char (the white space after the timestamp might be a multi-byte char)
+fn skip_first_char(s: &str) -> &str {
+    let mut chars = s.chars();
+    chars.next();
+    chars.as_str()
+}
+
 /// Parse a timestamp in logcat monotonic format to a time in us.
 ///
 /// Expected format is x.y (x any number, y any number but expected 3 digits)
@@ -362,7 +369,7 @@ where
                                 ctid: self.ctid.to_owned(),
                             }),
                             payload,
-                            payload_text: Some(cap_str[loc_timestamp.1 + 1..].to_owned()),
+                            payload_text: Some(skip_first_char(&cap_str[loc_timestamp.1..]).to_owned()),
                             lifecycle: 0,
                         };
 
@@ -462,7 +469,7 @@ where
                                     ctid: self.ctid.to_owned(),
                                 }),
                                 payload,
-                                payload_text: Some(cap_str[loc_timestamp.1 + 1..].to_owned()),
+                                payload_text: Some(skip_first_char(&cap_str[loc_timestamp.1..]).to_owned()),
                                 lifecycle: 0,
                             };
 
